@@ -73,12 +73,13 @@ Theorem C08_mixed_running_evm : forall H p s, NoDup H -> In C H -> In Md H ->
 Proof. exact outer_only_keeps_books. Qed.
 Print Assumptions C08_mixed_running_evm.
 
-(* ... and also when the bridgeCall conversions (nested StateDB) all run before the contract touches the token *)
-Theorem C08_mixed_bridgecalls_first : forall H xs q s, NoDup H -> In C H -> In Md H ->
-  forallb outer_only q = true -> forallb (targets_in H) q = true -> clean s -> booksC H s ->
-  booksC H (fst (mtx (map MBridgeCall xs ++ q) s)) /\ clean (fst (mtx (map MBridgeCall xs ++ q) s)).
-Proof. exact bridge_calls_first_keep_books. Qed.
-Print Assumptions C08_mixed_bridgecalls_first.
+(* ... and also when the nested conversions (bridgeCall burn, cancelSendToExternal / executeClaim mint) all run before the
+   contract touches the token *)
+Theorem C08_mixed_nested_first : forall H pre q s, NoDup H -> In C H -> In Md H ->
+  forallb nested pre = true -> forallb outer_only q = true -> forallb (targets_in H) q = true -> clean s -> booksC H s ->
+  booksC H (fst (mtx (pre ++ q) s)) /\ clean (fst (mtx (pre ++ q) s)).
+Proof. exact nested_first_keep_books. Qed.
+Print Assumptions C08_mixed_nested_first.
 
 (* ... but in general it is FALSE of the code as it is: token.transfer(X,30) then bridgeCall(token,50) in one transaction:
    the nested burn is overwritten by the outer commit, 50 tokens are created *)
@@ -87,9 +88,20 @@ Theorem C08_mixed_bridgecall_refuted :
     let s' := fst (mtx p s) in
     snd (mtx p s) = true /\ books_ok [C; 300; Md] s' = false /\
     sval (SBal C) (committed s') = 70 /\ sval (SBal 300) (committed s') = 30 /\ sval STotal (committed s') = 50 /\
-    escrow s' = 50 /\ out s' = 50.
+    escrow s' = 50 /\ out s' = 90.
 Proof. exact mixed_bridgecall_refuted. Qed.
 Print Assumptions C08_mixed_bridgecall_refuted.
+
+(* the same lost update through a nested MINT (cancelSendToExternal refund, executeClaim deposit): the contract loses it *)
+Theorem C08_mixed_mint_refuted :
+  books_ok [C; 300; Md] (fst (mtx [MTransfer 300 30; MCancel] mix_s0)) = false /\
+  sval (SBal C) (committed (fst (mtx [MTransfer 300 30; MCancel] mix_s0))) = 70 /\
+  sval STotal (committed (fst (mtx [MTransfer 300 30; MCancel] mix_s0))) = 140 /\
+  books_ok [C; 300; Md] (fst (mtx [MBalanceOf C; MExecClaim; MTransfer 300 1] mix_s0)) = false /\
+  sval (SBal C) (committed (fst (mtx [MBalanceOf C; MExecClaim; MTransfer 300 1] mix_s0))) = 99 /\
+  sval STotal (committed (fst (mtx [MBalanceOf C; MExecClaim; MTransfer 300 1] mix_s0))) = 125.
+Proof. exact mixed_mint_refuted. Qed.
+Print Assumptions C08_mixed_mint_refuted.
 
 (* externally-owned pair with a token that is not a FIP20 (reverts / returns false / returns nothing): the books hold over
    every conversion history, and a conversion whose transfer does not happen is refused *)
@@ -106,7 +118,7 @@ Print Assumptions C08_failed_transfer_refused.
 Theorem C08_nonvacuous :
   (let s' := fst (mtx [MApprove Pc 40; MTransfer 300 30; MCrossChain 40; MBalanceOf C] mix_s0) in
    snd (mtx [MApprove Pc 40; MTransfer 300 30; MCrossChain 40; MBalanceOf C] mix_s0) = true /\
-   books_ok [C; 300; Md] s' = true /\ sval (SBal C) (committed s') = 30 /\ sval STotal (committed s') = 60 /\ out s' = 40 /\
+   books_ok [C; 300; Md] s' = true /\ sval (SBal C) (committed s') = 30 /\ sval STotal (committed s') = 60 /\ out s' = 80 /\
    (let s2 := fst (mtx [MBridgeCall 50; MTransfer 300 30] mix_s0) in
     books_ok [C; 300; Md] s2 = true /\ sval (SBal C) (committed s2) = 20)) /\
   (let s := isteps i_empty [IRegisterCoin 10 [11; 12] 500; IRegisterERC20 501 20 [21]; IToggle true 500; IUpdateAlias 10 13;
